@@ -560,6 +560,7 @@ func (x *Exec) specCallExpr(env *SpecEnv, e *SExpr) Value {
 			return IntV{Select(env.st.ghostArr("httperrs", SInt), x.asTermAny(x.specEval(env, e.Args[0])))}
 		case "ioerr":
 			// ioerr(e): e is an error of modelled I/O (never one of the program's sentinels, wraps none)
+			x.ioErrAxiom()
 			return BoolV{Gt(x.asTerm(x.specEval(env, e.Args[0])), IntLit(1<<40))}
 		case "httpwrites":
 			return IntV{Select(env.st.ghostArr("httpwrites", SInt), x.asTermAny(x.specEval(env, e.Args[0])))}
@@ -716,7 +717,7 @@ func (x *Exec) specCallExpr(env *SpecEnv, e *SExpr) Value {
 		case "keyid":
 			return IntV{x.keyTerm(env.st, x.specEval(env, e.Args[0]))}
 		case "allocated":
-			return BoolV{Select(env.st.alloc, x.asTerm(x.specEval(env, e.Args[0])))}
+			return BoolV{allocAt(env.st.alloc, x.asTerm(x.specEval(env, e.Args[0])))}
 		case "upreqhdr":
 			// upreqhdr(): the header of the request handed to the last (*http.Client).Do, as it was then
 			hp := x.L.pkgOf("net/http")
@@ -729,6 +730,7 @@ func (x *Exec) specCallExpr(env *SpecEnv, e *SExpr) Value {
 			// iserr(e, Sentinel): errors.Is(e, Sentinel)
 			a := x.asTerm(x.specEval(env, e.Args[0]))
 			b := x.asTerm(x.specEval(env, e.Args[1]))
+			x.sentinelAxiom() // nil and the package-level sentinels wrap nothing
 			return BoolV{errIs(a, b)}
 		}
 		if v, ok := x.specHook(env, name, e); ok {
